@@ -23,6 +23,7 @@ type PropConfig struct {
 	Assumes  []string `json:"assumptions"`
 	Notes    string   `json:"notes"`
 	Structural []string `json:"structural"`
+	MathLemmas []string `json:"math_lemmas"`
 }
 
 type Target struct {
@@ -177,6 +178,24 @@ func cmdCheck(args []string) int {
 	if len(pc.Structural) > 0 && *only == "" {
 		results = append(results, &TargetResult{Target: "structural:" + strings.Join(pc.Structural, ","), Obls: structuralObligations(p, *verif, pc.Structural), Exec: NewExec(p)})
 	}
+	// arithmetic lemmas over the mathematical integers (hand-written SMT-LIB, negated claim, expected unsat)
+	if len(pc.MathLemmas) > 0 && *only == "" {
+		tr := &TargetResult{Target: "math-lemmas", Exec: NewExec(p)}
+		for _, f := range pc.MathLemmas {
+			name := "math." + strings.TrimSuffix(filepath.Base(f), ".smt2") + "#M:integers"
+			o := &Obligation{Name: name, Class: "M", Func: "math", Label: "integers", PC: True(), Goal: False(), Pos: f}
+			data, err := os.ReadFile(filepath.Join(*verif, f))
+			if err != nil {
+				o.Status = "failed"
+				o.Result = &SolveResult{Verdict: "error", Output: err.Error()}
+				o.Vacuous = true
+			} else {
+				o.RawScript = string(data)
+			}
+			tr.Obls = append(tr.Obls, o)
+		}
+		results = append(results, tr)
+	}
 	// discharge
 	var wg sync.WaitGroup
 	var solverSecs float64
@@ -193,6 +212,23 @@ func cmdCheck(args []string) int {
 				continue
 			}
 			nq++
+			if o.RawScript != "" {
+				wg.Add(1)
+				go func(ti, oi int, o *Obligation) {
+					defer wg.Done()
+					res := Solve2(o.RawScript, "", smtDir, fmt.Sprintf("t%d_o%d", ti, oi), timeout)
+					mu.Lock()
+					solverSecs += res.Secs
+					mu.Unlock()
+					o.Result = &res
+					if res.Verdict == "unsat" {
+						o.Status = "proved"
+					} else {
+						o.Status = "unknown"
+					}
+				}(ti, oi, o)
+				continue
+			}
 			hyps := relevantHyps(r.Exec.assumes[:o.NHyp], o.PC)
 			asserts := append(hyps, o.PC, Not(o.Goal))
 			var gv []*Term
